@@ -389,6 +389,21 @@ def run_case(spec, idx, ctx):
                 worst = max(worst, res)
                 nb += 1
                 ctx.close(res, TOL_BATCH, "batch_invariance", lambda: "corrected_stack differs between max_batch_size=%d and the un-batched run (num_bf=%d)" % (b, n), **_fields(spec, sc, batch_class="1" if b == 1 else "n" if b == n else "gt_n" if b > n else "mid"))
+            # history: the result is a function of the stack, the mask and the hyper-parameters of *this* call only - calls made in
+            # between on the same instance with other hyper-parameters (overrides, another kernel, another sub-mask) must not leak
+            if idx % 2 == 0:
+                kw0 = sc.kw
+                ov = {"C10": float(rng.uniform(-300, 300)), "C12": float(rng.uniform(0, 150)), "phi12": float(rng.uniform(0, 3.0))}
+                other = dict(kw0, deconvolution_kernel=["parallax", "ssb", "icom", "obf"][int(rng.integers(4))], override_aberration_coefs=ov, override_rotation_angle=float(rng.uniform(-0.5, 0.5)))
+                other.pop("q_highpass", None)
+                sc.kw = other
+                try:
+                    _recon(dp, sc, _pick_submask(rng, M, "halves"), int(rng.integers(1, n + 1)))
+                finally:
+                    sc.kw = kw0
+                st, bf = _recon(dp, sc, sub, None)
+                if st.shape == st0.shape:
+                    ctx.close(_m(st - st0) / scale, TOL_BATCH, "history_dependence", lambda: "the same reconstruct() call gives another result after an intermediate call with overrides %r" % (ov,), **_fields(spec, sc, batch_class="history"))
         else:
             ctx.count("note:zero_result")
         ctx.nontrivial(sig, var > 0 and n >= 5 and scale > 0 and nb >= 2)
